@@ -104,6 +104,12 @@ def run(ctx: core.Ctx):
             valid = [v for v, ok in zip(y, m) if ok]
             nd = gen.placeholder(rng, valid)
             jobs += make_jobs(rng, variant, y, m, nd, prm, [tkind])
+    import json
+    corpus = json.loads((core.ROOT / "corpus" / "selection_sensitive.json").read_text())
+    for variant in ("optv", "optvp"):
+        for c in corpus[variant][: (25 if ctx.quick else 60)]:
+            prm = dict(sr=c["sr"]) if variant == "optv" else dict(sr=c["sr"], p=c["p"])
+            jobs += make_jobs(rng, variant, c["y"], [bool(b) for b in c["mask"]], -3000, prm, ["reverse", "shift"])
     evaluate(ctx, jobs)
     ctx.trusted += ["native model driver (Hdc/Model/Smooth.lean at Float)", "harness/props/c06.py oracle (pairs of real calls)"]
 
